@@ -256,7 +256,10 @@ func (f *filter) forEachAvailableMigrationJobs(listOpts *client.ListOptions, han
 		}
 		found := false
 		for _, v := range expectedPhaseContexts {
-			if phase == v.phase && (!v.checkArbitration || f.checkJobPassedArbitration(job.UID)) {
+			// a job that carries the passed-arbitration annotation has been admitted, whether or not this
+			// process (e.g. after a restart or leader change) is the one that arbitrated it.
+			if phase == v.phase && (!v.checkArbitration || f.checkJobPassedArbitration(job.UID) ||
+				job.Annotations[AnnotationPassedArbitration] == "true") {
 				found = true
 				break
 			}
